@@ -163,3 +163,18 @@ Proofs/C07/Sweeps.vos Proofs/C07/Sweeps.vok Proofs/C07/Sweeps.required_vos: Proo
 Properties/C07.vo Properties/C07.glob Properties/C07.v.beautified Properties/C07.required_vo: Properties/C07.v Engine/Regex.vo Gen/Patterns.vo PyRt/Str.vo Gen/Tables.vo Model/Trs.vo Model/TractPre.vo Spec/C07Spec.vo Proofs/C07/Sweeps.vo
 Properties/C07.vio: Properties/C07.v Engine/Regex.vio Gen/Patterns.vio PyRt/Str.vio Gen/Tables.vio Model/Trs.vio Model/TractPre.vio Spec/C07Spec.vio Proofs/C07/Sweeps.vio
 Properties/C07.vos Properties/C07.vok Properties/C07.required_vos: Properties/C07.v Engine/Regex.vos Gen/Patterns.vos PyRt/Str.vos Gen/Tables.vos Model/Trs.vos Model/TractPre.vos Spec/C07Spec.vos Proofs/C07/Sweeps.vos
+Model/PlssPre.vo Model/PlssPre.glob Model/PlssPre.v.beautified Model/PlssPre.required_vo: Model/PlssPre.v Engine/Regex.vo Gen/Patterns.vo PyRt/Str.vo Gen/Tables.vo Model/Trs.vo Model/Unpack.vo Model/TractPre.vo
+Model/PlssPre.vio: Model/PlssPre.v Engine/Regex.vio Gen/Patterns.vio PyRt/Str.vio Gen/Tables.vio Model/Trs.vio Model/Unpack.vio Model/TractPre.vio
+Model/PlssPre.vos Model/PlssPre.vok Model/PlssPre.required_vos: Model/PlssPre.v Engine/Regex.vos Gen/Patterns.vos PyRt/Str.vos Gen/Tables.vos Model/Trs.vos Model/Unpack.vos Model/TractPre.vos
+Model/PlssParse.vo Model/PlssParse.glob Model/PlssParse.v.beautified Model/PlssParse.required_vo: Model/PlssParse.v Engine/Regex.vo Gen/Patterns.vo PyRt/Str.vo Gen/Tables.vo Model/Trs.vo Model/Unpack.vo Model/TractPre.vo Model/Aliquot.vo Model/TractParse.vo Model/PlssPre.vo
+Model/PlssParse.vio: Model/PlssParse.v Engine/Regex.vio Gen/Patterns.vio PyRt/Str.vio Gen/Tables.vio Model/Trs.vio Model/Unpack.vio Model/TractPre.vio Model/Aliquot.vio Model/TractParse.vio Model/PlssPre.vio
+Model/PlssParse.vos Model/PlssParse.vok Model/PlssParse.required_vos: Model/PlssParse.v Engine/Regex.vos Gen/Patterns.vos PyRt/Str.vos Gen/Tables.vos Model/Trs.vos Model/Unpack.vos Model/TractPre.vos Model/Aliquot.vos Model/TractParse.vos Model/PlssPre.vos
+Model/PlssDesc.vo Model/PlssDesc.glob Model/PlssDesc.v.beautified Model/PlssDesc.required_vo: Model/PlssDesc.v Engine/Regex.vo Gen/Patterns.vo PyRt/Str.vo Gen/Tables.vo Model/Trs.vo Model/Unpack.vo Model/TractPre.vo Model/Aliquot.vo Model/TractParse.vo Model/PlssPre.vo Model/PlssParse.vo Model/Config.vo
+Model/PlssDesc.vio: Model/PlssDesc.v Engine/Regex.vio Gen/Patterns.vio PyRt/Str.vio Gen/Tables.vio Model/Trs.vio Model/Unpack.vio Model/TractPre.vio Model/Aliquot.vio Model/TractParse.vio Model/PlssPre.vio Model/PlssParse.vio Model/Config.vio
+Model/PlssDesc.vos Model/PlssDesc.vok Model/PlssDesc.required_vos: Model/PlssDesc.v Engine/Regex.vos Gen/Patterns.vos PyRt/Str.vos Gen/Tables.vos Model/Trs.vos Model/Unpack.vos Model/TractPre.vos Model/Aliquot.vos Model/TractParse.vos Model/PlssPre.vos Model/PlssParse.vos Model/Config.vos
+Extract/DispPlss.vo Extract/DispPlss.glob Extract/DispPlss.v.beautified Extract/DispPlss.required_vo: Extract/DispPlss.v Engine/Regex.vo PyRt/Str.vo Gen/Tables.vo Extract/Val.vo Extract/DispBase.vo Extract/DispTrs.vo Extract/DispContainers.vo Extract/DispTract.vo Extract/DispConfig.vo Model/Trs.vo Model/Unpack.vo Model/TractParse.vo Model/PlssPre.vo Model/PlssParse.vo Model/Config.vo Model/PlssDesc.vo
+Extract/DispPlss.vio: Extract/DispPlss.v Engine/Regex.vio PyRt/Str.vio Gen/Tables.vio Extract/Val.vio Extract/DispBase.vio Extract/DispTrs.vio Extract/DispContainers.vio Extract/DispTract.vio Extract/DispConfig.vio Model/Trs.vio Model/Unpack.vio Model/TractParse.vio Model/PlssPre.vio Model/PlssParse.vio Model/Config.vio Model/PlssDesc.vio
+Extract/DispPlss.vos Extract/DispPlss.vok Extract/DispPlss.required_vos: Extract/DispPlss.v Engine/Regex.vos PyRt/Str.vos Gen/Tables.vos Extract/Val.vos Extract/DispBase.vos Extract/DispTrs.vos Extract/DispContainers.vos Extract/DispTract.vos Extract/DispConfig.vos Model/Trs.vos Model/Unpack.vos Model/TractParse.vos Model/PlssPre.vos Model/PlssParse.vos Model/Config.vos Model/PlssDesc.vos
+Extract/Drv_plss.vo Extract/Drv_plss.glob Extract/Drv_plss.v.beautified Extract/Drv_plss.required_vo: Extract/Drv_plss.v Engine/Regex.vo Extract/Val.vo Extract/DispBase.vo Extract/DispPlss.vo
+Extract/Drv_plss.vio: Extract/Drv_plss.v Engine/Regex.vio Extract/Val.vio Extract/DispBase.vio Extract/DispPlss.vio
+Extract/Drv_plss.vos Extract/Drv_plss.vok Extract/Drv_plss.required_vos: Extract/Drv_plss.v Engine/Regex.vos Extract/Val.vos Extract/DispBase.vos Extract/DispPlss.vos
